@@ -65,7 +65,9 @@ def _one(job):
     # schedule: a short attempt with the first solver, then the second one (it decides, within seconds, a class of
     # quantified queries the first one only times out on), then the first one again with the full budget, then cvc5
     short = max(timeout // 5, 4)
-    schedule = [(order[0], short), (order[1], max(timeout // 2, 10)), (order[0], timeout), (order[2], max(timeout // 2, 5))]
+    # (the full-budget stage is at least 60 s: a few dictionary queries need 8..17 s on an idle machine and must not flip to
+    # `undecided` when all 16 cores are busy with other checks)
+    schedule = [(order[0], short), (order[1], max(timeout // 2, 10)), (order[0], max(timeout, 60)), (order[2], max(timeout // 2, 5))]
     for name, sec in schedule:
         ans, dt, _ = run_solver(name, path, sec)
         answers.append((name, ans, dt))
